@@ -11,7 +11,8 @@ from vf.jslower import lower
 HERE = os.path.dirname(os.path.abspath(__file__))
 VERIF = os.path.dirname(os.path.dirname(HERE))
 OUT = os.path.join(VERIF, 'build', 'jslowered')
-JS = '/repo/rbql-js'
+from vf.paths import REPO
+JS = REPO + '/rbql-js'
 
 
 def _load(name, path):
@@ -25,7 +26,8 @@ def _load(name, path):
 HAVE_READER = True
 
 RBQL_WANT = {'AssertionError', 'RbqlParsingError', 'assert', 'sample_first_two_inconsistent_records', 'check_if_brackets_match', 'parse_root_bracket_level_text_spans',
-             'unquote_string', 'column_info_from_text_span', 'adhoc_parse_select_expression_to_column_infos', 'select_output_header', 'regexp_escape', 'like_to_regex'}
+             'unquote_string', 'column_info_from_text_span', 'adhoc_parse_select_expression_to_column_infos', 'select_output_header', 'regexp_escape', 'like_to_regex',
+             'str_strip', 'get_all_matches', 'replace_star_count', 'replace_star_vars', 'replace_star_vars_for_header_parsing', 'translate_select_expression', 'separate_string_literals'}
 CSV_WANT = {'utf_decoding_error', 'RbqlIOHandlingError', 'AssertionError', 'assert', 'remove_utf8_bom', 'make_inconsistent_num_fields_warning', 'RecordQueue', 'CSVRecordIterator',
             'interpret_named_csv_format'}
 
@@ -49,12 +51,18 @@ class TextBuffer(object):
 class BufferNS(object):
     @staticmethod
     def from_(s, encoding=None):
-        return TextBuffer(s)   # re-encoding of an already decoded text: equal to the original blob iff that blob decoded without error
+        if encoding not in (None, 'utf-8', 'utf8'):
+            raise js.Unsupported('Buffer.from(..., %r)' % (encoding,))
+        return js.Buffer(js.utf8_encode(s))
     @staticmethod
     def compare(a, b):
-        # (original blob, re-encoded decoded text): equal iff the blob decoded without error (Buffer.toString records it)
-        if getattr(a, 'invalid', False) or getattr(b, 'invalid', False):
+        if isinstance(a, TextBuffer) or isinstance(b, TextBuffer):
+            return 0          # the text stub stands for a blob that decodes without error to exactly this text
+        if len(a.data) != len(b.data):
             return 1
+        for x, y in zip(a.data, b.data):
+            if x != y:
+                return 1
         return 0
 '''
 
